@@ -10,7 +10,7 @@ import random, json, os, tempfile, shutil, gzip, lzma, zipfile
 from common import *
 import gen, pipeline, model, impl, shex_text, findings as F
 from props import base
-from props.c09 import evidence, chosen, has_tie
+from props.c09 import evidence, chosen, has_tie, tie_explained
 from shexer import consts as C
 
 PROPS_MODULES = ["ShexerModel.Props.C08"]
@@ -236,12 +236,20 @@ def run(ctx):
                     if why is None and not tie:
                         stats["comparisons_without_tie"] += 1
                         if {l: v[1] for l, v in ev.items()} != {l: v[1] for l, v in ev0.items()}:
-                            why = "sets of printed facts (constraints and comments) differ"
+                            if not tie_explained(ev0, ev):
+                                why = "sets of printed facts (constraints and comments) differ"
+                            else:
+                                stats["hidden_ties"] = stats.get("hidden_ties", 0) + 1
                         elif ch != ch0:
                             why = "chosen constraints differ"
                 if why:
                     obs = {"kind": "delivery", "channel": name, "bnodes": bn, "delivery": kind, "why": why}
                     fid = F.match(kf, obs)
+                    if not fid and why.startswith("constraint keys"):
+                        diff = [k for l in keys0 for k in keys0[l] ^ keys.get(l, set())]
+                        expected = len(gen.classes_of(g, cfg['inst_prop']) if cfg['target_mode'] == 'all' else cfg['targets'])
+                        fid = F.match(kf, {"kind": "order_dependent_keys", "cfg": cfg, "keys": diff,
+                                           "a_shape_was_removed": len(ref['shapes']) < expected or len(got['shapes']) < expected})
                     if fid:
                         hit.add(fid)
                     else:
